@@ -39,10 +39,15 @@ H.ST["ms2-touch"] = (("spheres", [(1.59, 0.5, (2.0, 2.0, 10.0)),
                      ("Multisphere", (), {}))
 H.ST["auto-far"] = (("spheres", [(1.59, 0.5, (0.2, 0.1, 5.0)),
                                  (1.45, 0.3, (20.0, 4.0, 7.0))]), "auto")
-STS = {"quick": ["mie", "layered", "ms2", "tm-spheroid", "tm-cylinder",
+# particles tens to hundreds of wavelengths from the detector plane (the
+# reference wave's phase exp(-ikz) wraps many times there)
+H.ST["mie-z61"] = (("sphere", 1.59, 0.5, (0.3, -0.2, 61.3)), ("Mie", (), {}))
+H.ST["mie-z401"] = (("sphere", 1.59, 0.5, (0.3, -0.2, 400.9)),
+                    ("Mie", (), {}))
+STS = {"quick": ["mie-z61", "mie-z401", "mie", "layered", "ms2", "tm-spheroid", "tm-cylinder",
                  "mielens", "abmielens", "lens-mie", "mie2", "auto-ms2",
                  "auto-far", "tm-spheroid-abs", "mie-2wl", "ms2-touch"],
-       "thorough": ["mie", "mie-far", "mie-abs", "layered", "mie2", "ms1",
+       "thorough": ["mie-z61", "mie-z401", "mie", "mie-far", "mie-abs", "layered", "mie2", "ms1",
                     "ms2", "tm-sphere", "tm-spheroid", "tm-cylinder",
                     "mielens", "abmielens", "mielens2", "lens-mie",
                     "auto-ms2", "auto-far", "auto", "tm-spheroid-abs",
